@@ -74,7 +74,12 @@ def roundtrip(ctx, dn, directed, idkind, delim, enc, target, big=False):
             kw["delimiter"] = delim
         stream = list(G.stream_interactions())
         try:
-            tgt.write(lambda p: dn.write_interactions(G, p, **kw))
+            # the target is passed positionally or by keyword (both are resolved by the same decorator)
+            if ctx.rng.random() < 0.3:
+                ctx.cell("path-by-keyword")
+                tgt.write(lambda p: dn.write_interactions(G, path=p, **kw))
+            else:
+                tgt.write(lambda p: dn.write_interactions(G, p, **kw))
         except Exception as ex:
             if raised_in_library(ex):
                 ctx.violation("write:raised", dict(cfg, exception=repr(ex)))
@@ -99,7 +104,7 @@ def roundtrip(ctx, dn, directed, idkind, delim, enc, target, big=False):
             rk["delimiter"] = delim
         arg = tgt.read_arg()
         try:
-            H = dn.read_interactions(arg, **rk)
+            H = dn.read_interactions(path=arg, **rk) if ctx.rng.random() < 0.3 else dn.read_interactions(arg, **rk)
         except Exception as ex:
             if raised_in_library(ex):
                 ctx.violation("read:raised", dict(cfg, exception=repr(ex)))
